@@ -250,6 +250,38 @@ func checkC06(c *core.Ctx) {
 			return core.Pass()
 		})
 	}
+	// constant tensors of many shapes with multi-digit sizes, created one after
+	// the other (shape-keyed sharing of constant data must not confuse shapes)
+	c.Case("const/multidigit", true, func() core.Verdict {
+		shapes := [][]int{{1, 24}, {12, 4}, {1, 64}, {16, 4}, {11, 1}, {1, 11}, {1, 12}, {11, 2}, {2, 1, 15}, {2, 11, 5}, {21, 3}, {2, 13}, {10, 10}, {1, 10, 10}, {101}, {10, 1}, {1, 1, 0 + 12}}
+		for round := 0; round < 2; round++ {
+			for _, s := range shapes {
+				for _, v := range []float64{0, 1, 2.5} {
+					var f tensor.Tensor
+					var err error
+					switch v {
+					case 0:
+						f, err = tensor.Zeros(ref.CopyShape(s), rt.Conf(round == 1))
+					case 1:
+						f, err = tensor.Ones(ref.CopyShape(s), rt.Conf(false))
+					default:
+						f, err = tensor.Full(ref.CopyShape(s), v, rt.Conf(false))
+					}
+					if err != nil {
+						return core.Fail("constant tensor of shape %v: %v", s, err)
+					}
+					g := rt.Read(f)
+					if ok, msg := core.ExactEq(g, ref.FullOf(s, v)); !ok {
+						return core.Fail("constant %v of shape %v (created after other shapes): %s", v, s, msg)
+					}
+					if m := wellFormed(f, g); m != "" {
+						return core.Fail("constant %v of shape %v: %s", v, s, m)
+					}
+				}
+			}
+		}
+		return core.Pass()
+	})
 	// negative zero: "hold exactly the requested values" / "move elements
 	// without changing them" includes the sign of zero (compared bit-exactly)
 	negz := math.Copysign(0, -1)
@@ -351,6 +383,26 @@ func checkC06(c *core.Ctx) {
 		}
 		return core.Pass()
 	})
+	// Concat of four and five operands of different sizes along every dimension
+	for _, base := range [][]int{{1}, {1, 2}, {2, 1}, {2, 1, 3}, {1, 2, 2}} {
+		for d := range base {
+			if base[d] != 1 {
+				continue
+			}
+			for _, sizes := range [][]int{{1, 2, 1, 3}, {2, 1, 1, 1, 2}, {3, 3, 3, 3}, {1, 1, 1, 1, 1}} {
+				base, d, sizes := base, d, sizes
+				c.Case(fmt.Sprintf("concatN/%v/dim%d/%v", base, d, sizes), true, func() core.Verdict {
+					var in []*ref.T
+					for i, n := range sizes {
+						sh := ref.CopyShape(base)
+						sh[d] = n
+						in = append(in, enum.Labels(sh, float64(100*i)))
+					}
+					return applyBoth(ref.Op{K: "Concat", Dim: d}, in, true)
+				})
+			}
+		}
+	}
 	// Eye
 	for _, n := range []int{1, 2, 3, 4, 5, 17, 40} {
 		n := n
